@@ -598,7 +598,8 @@ def c15(rep, tier):
         if st['k'] == 'for' and st.get('init') and st['init']['k'] == 'decl' and st.get('c') is not None and st.get('inc') is not None:
             iv = st['init']['vars'][0]
             c = strip_casts(st['c'])
-            over_all = strip_casts(iv.get('init')).get('v') == 0 and c.get('k') == 'bin' and c['op'] in ('<', '!=') and is_call(strip_casts(c['r']), '::size') and \
+            over_all = strip_casts(iv.get('init')).get('v') == 0 and c.get('k') == 'bin' and c['op'] in ('<', '!=') and strip_casts(c['l']).get('d') == iv['d'] and \
+                is_call(strip_casts(c['r']), '::size') and \
                 strip_casts(strip_casts(c['r'])['obj']).get('d') == stackp['d'] and '++' in show(st['inc'])
         if over_all:
             ifs = [x for x in walk_stmts(st['body']) if x['k'] == 'if']
@@ -683,6 +684,9 @@ def c15(rep, tier):
                     if ks:
                         kinds = ks
                         okp = True
+                    I5.violation('parse: requests of empty names', 'requests are collected only when the request string is non-empty: an absent file whose name is the empty string '
+                                 '(include "" , or an empty main key) is reported but not returned as a file request', 'Compiler/src/parse.cpp:%d' % pushes_[0]['loc'][0],
+                                 witness={'input': 'main file: include ""'})
     I5.check(okp and kinds == {'FILE_NOT_FOUND', 'MAIN_FILE_NOT_FOUND'}, 'parse: requests collected', 'file_request of FILE_NOT_FOUND and MAIN_FILE_NOT_FOUND errors',
              'requests are collected for error kinds %s' % sorted(kinds), 'Compiler/src/parse.cpp:%d' % parse['loc'][1])
     rets = [s for s in walk_stmts(parse['body']) if s['k'] == 'return']
